@@ -19,6 +19,7 @@ open Pv
 def relOf : String → Option Rel
   | "member" => some .member | "member1" => some .member1 | "append" => some .append
   | "rember" => some .rember | "permute" => some .permute | "distinct" => some .distinct
+  | "spin" => some .spin
   | _ => none
 
 def terms : Nat → P (List Term) := many term
